@@ -3,7 +3,7 @@ from props.m1common import rng_for, is_err
 import sx
 
 PID = "C14"
-KERNELS = ['K_event_copy']   # translated from /repo on every run, tied to the model by coq/Gen/<name>_eq.v
+KERNELS = ['K_event_copy', 'K_destructive_copy']   # translated from /repo on every run, tied to the model by coq/Gen/<name>_eq.v
 RUNNER = "impl_m3.py"
 N = {"quick": 1200, "thorough": 40000}
 VM_CROSSCHECK = True
